@@ -40,6 +40,13 @@ Theorem root_matching : forall c s, reachable c s -> forall w, step c s (ERecv w
 Proof. exact DispatchProofs.root_matching. Qed.
 Print Assumptions root_matching.
 
+(** At most one message is in flight on any master-worker link, and none while the worker runs a job (the
+    re-posted receive shares the buffer current_job_ with the running job; it is never overwritten). *)
+Theorem link_capacity : forall c s w, reachable c s -> In w (pool c) ->
+  length (chan s w) <= 1 /\ (forall j, wst s w = Work j -> chan s w = []).
+Proof. exact DispatchProofs.link_capacity. Qed.
+Print Assumptions link_capacity.
+
 (** The code never does what the model's MPI state cannot represent (overwriting an active request,
     abandoning an active receive at the end of a round). *)
 Theorem model_envelope : forall c s, reachable c s -> err s = false.
@@ -116,3 +123,11 @@ Theorem rounds_exist : forall c, valid_cfg c = true -> forall jss s, reachable c
   exists t s', run c s t = Some s' /\ finalb c s' = true /\ final_okb c s' = true /\ newrounds t = jss.
 Proof. exact DispatchProofs.rounds_exist. Qed.
 Print Assumptions rounds_exist.
+
+(** Every enabled non-stuttering event is produced by [candidates], the enumeration with which the check
+    explores the extracted model exhaustively for small configurations: that exploration covers all
+    interleavings. *)
+Theorem candidates_complete : forall c s e s', step c s e = Some s' -> stutter e = false -> is_newround e = false ->
+  In e (candidates c s).
+Proof. exact DispatchProofs.candidates_complete. Qed.
+Print Assumptions candidates_complete.
